@@ -174,6 +174,37 @@ def path_formulas_ops(k, aps=('p', 'q'), quant=False):
     return [f for n in range(k + 1) for f in by_ops[n]]
 
 
+# ---------- wide connectives: Or/And are VARIADIC (the parsers fold 'a or b or c' into one node) ----------
+def wide_cases(rng, n, kind):
+    """(structure, formula) cases whose or/and nodes have 3-5 operands (1 operand in a few cases), every operand a distinct
+    temporal formula, so that an operand in position >= 3 matters.  kind: 'LTL' (A over a wide path connective),
+    'CTLS' (A/E over a wide path connective, operands possibly quantified), 'CTL' (wide connective of quantified CTL formulas)"""
+    ops1 = [g for g in path_formulas_ops(1) if g[0] in ('X', 'F', 'G', 'U', 'R')]
+    ops2 = [g for g in path_formulas_ops(2) if g[0] in ('X', 'F', 'G', 'U', 'R') and g[1][0] != 'true']
+    out = []
+    while len(out) < n:
+        # (the tableau is exponential in the number of temporal operands: keep LTL/CTL* bodies small)
+        k = rng.choice([3, 3, 3, 4, 4, 5, 1]) if kind == 'CTL' else rng.choice([3, 3, 3, 3, 4, 1])
+        pool = ops1 if (rng.random() < 0.6 if kind == 'CTL' else (k > 3 or rng.random() < 0.85)) else ops2
+        gs = rng.sample(pool, k)
+        if kind == 'CTL':
+            gs = [(rng.choice('AE'), g) for g in gs]
+            gs = [g for g in gs if is_ctl_state(g)]
+            if len(gs) != k:
+                continue
+        elif kind == 'CTLS':
+            gs = [(rng.choice('AE'), g) if rng.random() < 0.3 else g for g in gs]
+        gs = [('not', g) if rng.random() < 0.25 else g for g in gs]
+        rng.shuffle(gs)
+        w = (rng.choice(['or', 'and']),) + tuple(gs)
+        if rng.random() < 0.3:
+            w = rng.choice([('not', w), ('X', w), ('G', w), ('F', w)]) if kind != 'CTL' else ('not', w)
+        f = w if kind == 'CTL' else ((rng.choice('AE') if kind == 'CTLS' else 'A'), w)
+        m = rng.randint(2, 4)
+        out.append((rand_kripke(rng, m, aps=('p', 'q')), f))
+    return out
+
+
 # ---------- exotic atom names: the faithful (printed-form) models of coq/Model/Memo.v ----------
 def run_print_stream(R, pid, logic, nform, kf_id='KF-print-a'):
     """formulas whose ATOM NAMES collide with printed subformulas / reserved words (known finding
